@@ -140,7 +140,7 @@ func hasNonFinite(v Val) bool {
 }
 
 func checkC19(c *Ctx) {
-	c.rule = "(1) generate: random nested dictionaries (texts over quotes, backslashes, control characters, astral code points; doubles incl. -0, subnormals, 2^53+1, 1.8e308; booleans, 空, empty lists/dicts) enter as input variables; the text of 生成JSON is parsed by Python json.loads (strict constants) and compared structurally; non-finite numbers must give a catchable exception, and so must objects / types / methods / exceptions anywhere in the structure (never null); (2) parse: documents produced by Python json.dumps (random separators, indent, ensure_ascii) must parse to the generator's value with keys in document order; (3) in-language round trip (解析JSON：（生成JSON：D）) 为 D; (6) values nested up to 15000 deep built by a Zn program: generation then parsing gives the value back, or generation refuses; (5) documents nested 100 … 200000 deep (thorough: up to 6 million) as objects / arrays / both / unclosed: parsed or refused with an exception, never a dead process; (4) every single-character deletion / replacement of small documents: Python rejects => Zn raises an exception a 拦截 catches, Python accepts => same value. distinct_nontrivial = distinct (family, value shape signature, outcome)"
+	c.rule = "(1) generate: random nested dictionaries (texts over quotes, backslashes, control characters, astral code points; doubles incl. -0, subnormals, 2^53+1, 1.8e308; booleans, 空, empty lists/dicts) enter as input variables; the text of 生成JSON is parsed by Python json.loads (strict constants) and compared structurally; non-finite numbers must give a catchable exception, and so must objects / types / methods / exceptions anywhere in the structure (never null); (2) parse: documents produced by Python json.dumps (random separators, indent, ensure_ascii) must parse to the generator's value with keys in document order; (3) in-language round trip (解析JSON：（生成JSON：D）) 为 D; (6) values nested around the 10000-level bound (a parsed document of depth 9990 wrapped in up to 40 further levels by the program): generation then parsing gives the value back, or generation refuses; (5) documents nested 100 … 200000 deep (thorough: up to 6 million) as objects / arrays / both / unclosed: parsed or refused with an exception, never a dead process; (4) every single-character deletion / replacement of small documents: Python rejects => Zn raises an exception a 拦截 catches, Python accepts => same value. distinct_nontrivial = distinct (family, value shape signature, outcome)"
 	c.assumptions = []string{"Python 3 json module is the reference parser/encoder", "documents whose Python value contains inf (overflowing literals), lone surrogates, integers beyond 2^53, or whose top level is not an object are not judged"}
 	py, err := startPyOracle(c.Root)
 	if err != nil {
@@ -246,23 +246,31 @@ func checkC19(c *Ctx) {
 	// deep values built inside the language: whatever 生成JSON accepts, 解析JSON must read back
 	// (a depth one of them refuses must be refused by the other too)
 	{
-		depthsV := []int{10, 5000, 9990, 9999, 10000, 10001, 12000, 15000}
+		// (the deep part comes from a parsed document, so that building it is linear; a few more
+		// levels are wrapped around it in the language to cross the bound)
+		type dv struct{ base, wraps int }
+		dvs := []dv{{100, 5}, {9000, 0}, {9990, 0}, {9990, 7}, {9990, 8}, {9990, 9}, {9990, 10}, {9990, 11}, {9990, 40}}
+		depthsV := []int{}
 		vreqs := []Req{}
-		for _, d := range depthsV {
+		for _, d := range dvs {
 			for _, kind := range []string{"list", "dict"} {
-				wrap := "【物】"
+				doc := "{\"a\":" + strings.Repeat("[", d.base) + "1" + strings.Repeat("]", d.base) + "}"
+				open, close := strings.Repeat("【", d.wraps), strings.Repeat("】", d.wraps)
 				if kind == "dict" {
-					wrap = "【“k” = 物】"
+					doc = strings.Repeat("{\"a\":", d.base) + "1" + strings.Repeat("}", d.base)
+					open, close = strings.Repeat("【“k” = ", d.wraps), strings.Repeat("】", d.wraps)
 				}
-				src := "导入《@JSON》\n如何包？\n\t输入物、次\n\t如果 次 <= 0：\n\t\t输出 物\n\t输出（包：" + wrap + "、次 - 1）\n" +
+				src := "导入《@JSON》\n输入文\n" +
 					"如何生成？\n\t输入值\n\t输出（生成JSON：值）\n\n\t拦截异常：\n\t\t输出 空\n" +
 					"如何解析？\n\t输入字\n\t输出（解析JSON：字）\n\n\t拦截异常：\n\t\t输出 空\n" +
-					fmt.Sprintf("令典 = 【“a” = （包：1、%d）】\n令文 = （生成：典）\n如果 文 为 空：\n\t输出 “generation-refused”\n令回 = （解析：文）\n如果 回 为 空：\n\t输出 “parse-refused”\n输出 回 为 典\n", d)
+					"令底 = （解析JSON：文）\n令典 = 【“a” = " + open + "底" + close + "】\n令字 = （生成：典）\n如果 字 为 空：\n\t输出 “generation-refused”\n令回 = （解析：字）\n如果 回 为 空：\n\t输出 “parse-refused”\n输出 回 为 典\n"
 				r := execReq(src)
 				r.Libs = true
 				r.EvalBudget = 0
+				r.Inputs = map[string]Val{"文": Text(doc)}
 				vreqs = append(vreqs, r)
 			}
+			depthsV = append(depthsV, d.base+d.wraps+1)
 		}
 		c.runBatches(vreqs, 2, func(i int, req *Req, resp *Resp) {
 			c.Eval()
@@ -273,6 +281,12 @@ func checkC19(c *Ctx) {
 				out = resp.Val.String()
 			}
 			c.Nontrivial(fmt.Sprintf("deep-value|%d|%s", d, out))
+			if resp.Kind == "timeout" {
+				// building the value copies it at every level (quadratic): on a loaded machine the
+				// wall-clock watchdog may fire first - not judged
+				c.Count("deep_values_not_judged_watchdog", 1)
+				return
+			}
 			ok := resp.Kind == "value" && resp.Val != nil && ((resp.Val.T == "bool" && resp.Val.B) || (resp.Val.T == "text" && resp.Val.S() == "generation-refused"))
 			if !ok {
 				c.Violation(fmt.Sprintf("deep-value:%d:%d", d, i%2), fmt.Sprintf("a dictionary holding a value nested %d deep: 生成JSON then 解析JSON -> %s %s (the text one of them produces must be read back by the other, or generation must refuse it)", d, resp.Kind, clip(resp.Outcome(), 120)), map[string]interface{}{"req": req})
